@@ -23,6 +23,7 @@ type Event struct {
 	Idx      int
 	AtExit   map[string]*Term // for deferred calls: memory at the time the defer runs
 	Inlined  bool             // produced by an inlined helper
+	FnVal    *Term            // call/go/defer through a function value: the term of that value (translated into the caller's vocabulary when the event comes from an inlined helper; Callee keeps the helper's own spelling)
 }
 
 // Atom is a normalised branch fact.
@@ -86,6 +87,13 @@ func (s *PathState) Mem(addr *Term) *Term { return s.mem[addr.K] }
 
 // MemKey returns the value last stored at the address key.
 func (s *PathState) MemKey(k string) *Term { return s.mem[k] }
+
+// Unclobbered reports whether the address t lies in a local object of this path that has never been handed to code the
+// path did not interpret: a cell of it without an entry in the memory still holds its zero value.
+func (s *PathState) Unclobbered(t *Term) bool {
+	r := t.Root()
+	return r != nil && r.Op == "alloc" && s.memver[r.K] == 0
+}
 
 // BlockPath renders the block sequence.
 func (s *PathState) BlockPath() string {
@@ -424,6 +432,7 @@ func (s *PathState) callEvent(kind string, in ssa.CallInstruction) Event {
 		if _, isB := cc.Value.(*ssa.Builtin); !isB {
 			// dynamic call through a function value: record the function value term as Aux
 			ev.Callee = "dynamic " + s.T(cc.Value).K
+			ev.FnVal = s.T(cc.Value)
 			if ft := s.T(cc.Value); ft != nil && ft.Op == "fn" {
 				if f, ok := ft.V.(*ssa.Function); ok {
 					ev.Fn = f
